@@ -199,4 +199,139 @@ theorem spaces_idempotent (fuel : Nat) (n n' : FNode) (h : spacesAroundOperators
     spacesAroundOperators fuel n' = .ok n' :=
   spaces_fixed n fuel 0 n' h
 
+/-! ## normal form of `SpacesAroundOperatorsFilter` -/
+
+/-- every operator child has, on each side, a whitespace sibling or the end of the list (`prev` is what precedes the list) -/
+def opsSpaced : Option FNode → List FNode → Bool
+  | _, [] => true
+  | prev, k :: rest => (!isSpaceOp k || (!needsBlank prev && !needsBlank rest.head?)) && opsSpaced (some k) rest
+
+namespace FNode
+mutual
+/-- `P` holds for the child list of every group of the tree -/
+def allLists (P : List FNode → Bool) : FNode → Bool
+  | .tok .. => true
+  | .grp _ _ ks => P ks && allListsL P ks
+def allListsL (P : List FNode → Bool) : List FNode → Bool
+  | [] => true
+  | k :: ks => allLists P k && allListsL P ks
+end
+end FNode
+
+theorem opsSpaced_congr (p q : Option FNode) (h : needsBlank p = needsBlank q) (l : List FNode) : opsSpaced p l = opsSpaced q l := by
+  cases l with
+  | nil => rfl
+  | cons k rest => simp [opsSpaced, h]
+
+theorem spacesGo_head_after_op (k : FNode) (rest : List FNode) (hr : needsBlank rest.head? = false) :
+    needsBlank (spacesGo (some k) rest).head? = false := by
+  cases rest with
+  | nil => rfl
+  | cons x r =>
+    unfold spacesGo
+    have hxw : x.isWhitespace = true := by simpa [needsBlank] using hr
+    have hxop : isSpaceOp x = false := by
+      cases h : isSpaceOp x with
+      | false => rfl
+      | true => rw [isSpaceOp_not_ws x h] at hxw; cases hxw
+    simp [hxop, needsBlank, hxw]
+
+theorem opsSpaced_spacesGo : ∀ (l : List FNode) (p : Option FNode), opsSpaced p (spacesGo p l) = true
+  | [], p => rfl
+  | k :: rest, p => by
+    by_cases hop : isSpaceOp k = true
+    · have tail : ∀ q, needsBlank q = false →
+          opsSpaced q (k :: (if needsBlank rest.head? = true then wsTok :: spacesGo (some wsTok) rest else spacesGo (some k) rest)) = true := by
+        intro q hq
+        cases hr : needsBlank rest.head? with
+        | true =>
+          simp only [if_true, opsSpaced, hq, List.head?_cons, needsBlank_ws, isSpaceOp_wsTok]
+          simp [opsSpaced_spacesGo rest (some wsTok)]
+        | false =>
+          simp only [Bool.false_eq_true, if_false, opsSpaced, hq, spacesGo_head_after_op k rest hr]
+          simp [opsSpaced_spacesGo rest (some k)]
+      cases hp : needsBlank p with
+      | true =>
+        have e1 : spacesGo p (k :: rest) = wsTok :: k :: (if needsBlank rest.head? = true then wsTok :: spacesGo (some wsTok) rest else spacesGo (some k) rest) := by
+          rw [spacesGo, if_pos hop, hp]; rfl
+        rw [e1, opsSpaced]
+        simp only [isSpaceOp_wsTok, Bool.not_false, Bool.true_or, Bool.true_and]
+        exact tail (some wsTok) needsBlank_ws
+      | false =>
+        have e1 : spacesGo p (k :: rest) = k :: (if needsBlank rest.head? = true then wsTok :: spacesGo (some wsTok) rest else spacesGo (some k) rest) := by
+          rw [spacesGo, if_pos hop, hp]; rfl
+        rw [e1]
+        exact tail p hp
+    · have e1 : spacesGo p (k :: rest) = k :: spacesGo (some k) rest := by rw [spacesGo, if_neg hop]
+      rw [e1, opsSpaced]
+      simp [hop, opsSpaced_spacesGo rest (some k)]
+
+theorem allLists_wsTok (P : List FNode → Bool) : wsTok.allLists P = true := rfl
+
+theorem allListsL_of_mem (P : List FNode → Bool) : ∀ (l : List FNode), (∀ x ∈ l, x.allLists P = true) → FNode.allListsL P l = true
+  | [], _ => rfl
+  | k :: rest, h => by
+    unfold FNode.allListsL
+    rw [h k List.mem_cons_self, allListsL_of_mem P rest (fun x hx => h x (List.mem_cons_of_mem _ hx))]
+    rfl
+
+mutual
+theorem spaces_nf_node : ∀ (n : FNode) (fuel d : Nat) (n' : FNode), bottomUp spLevel fuel d n = .ok n' →
+    n'.allLists (opsSpaced none) = true
+  | .tok tt v, fuel, d, n', h => by
+    unfold bottomUp at h
+    simp only [Except.ok.injEq] at h
+    rw [← h]; rfl
+  | .grp c cv ks, fuel, d, n', h => by
+    unfold bottomUp at h
+    cases fuel with
+    | zero => simp at h
+    | succ fuel' =>
+      simp only at h
+      cases hk : bottomUpL spLevel fuel' (d + 1) ks with
+      | error e => rw [hk] at h; cases h
+      | ok ks' =>
+        rw [hk] at h
+        simp only [spLevel, Except.ok.injEq] at h
+        rw [← h]
+        have hkids := spaces_nf_list ks fuel' (d + 1) ks' hk
+        unfold FNode.allLists
+        rw [Bool.and_eq_true]
+        refine ⟨opsSpaced_spacesGo ks' none, allListsL_of_mem _ _ ?_⟩
+        intro x hx
+        rcases mem_spacesGo ks' none x hx with rfl | hx'
+        · rfl
+        · exact hkids x hx'
+theorem spaces_nf_list : ∀ (ns : List FNode) (fuel d : Nat) (ns' : List FNode), bottomUpL spLevel fuel d ns = .ok ns' →
+    ∀ x ∈ ns', x.allLists (opsSpaced none) = true
+  | [], fuel, d, ns', h => by
+    unfold bottomUpL at h
+    simp only [Except.ok.injEq] at h
+    rw [← h]; simp
+  | k :: rest, fuel, d, ns', h => by
+    unfold bottomUpL at h
+    cases hk : bottomUp spLevel fuel d k with
+    | error e => rw [hk] at h; cases h
+    | ok k' =>
+      rw [hk] at h
+      simp only at h
+      cases hr : bottomUpL spLevel fuel d rest with
+      | error e => rw [hr] at h; cases h
+      | ok rest' =>
+        rw [hr] at h
+        simp only [Except.ok.injEq] at h
+        rw [← h]
+        intro x hx
+        rcases List.mem_cons.mp hx with rfl | hx'
+        · exact spaces_nf_node k fuel d _ hk
+        · exact spaces_nf_list rest fuel d rest' hr x hx'
+end
+
+/-- C10, `use_space_around_operators`: in the result every child whose type is exactly `Operator` or `Operator.Comparison`
+has a whitespace-typed sibling (or the end of its list) directly before and directly after it — in every list of the tree -/
+theorem spaces_nf (fuel : Nat) (n n' : FNode) (h : spacesAroundOperators fuel n = .ok n') :
+    n'.allLists (opsSpaced none) = true :=
+  spaces_nf_node n fuel 0 n' h
+
+
 end Sql
